@@ -519,6 +519,11 @@ fn validate_and_get_doscmint_speed<C: ContentAddrStore>(
             log::warn!("rejecting doscmint due to malformed proof: {:?}", e);
             StateError::InvalidMelPoW
         })?;
+    // MelPoW is only defined for difficulties 1..=64: outside that range the verifier's own arithmetic overflows
+    // (a panic with overflow checks) before it can reject the proof.
+    if !(1..=64).contains(&difficulty) {
+        return Err(StateError::InvalidMelPoW);
+    }
     let proof = match melpow::Proof::from_bytes(&proof_bytes) {
         Some(p) => p,
         None => {
